@@ -532,7 +532,11 @@ impl Quantity {
             return QuantityOrdering::IncompatibleUnits;
         };
 
-        let cmp = cmp.expect("unexpectedly got a None partial_cmp from non-NaN arguments");
+        // The operands are not NaN, but a conversion can produce one ("inf / inf" for
+        // huge values, e.g. in `1 Rm^12/m < 1 Qm^11`). Treat it like a NaN operand.
+        let Some(cmp) = cmp else {
+            return QuantityOrdering::NanOperand;
+        };
 
         QuantityOrdering::Ok(cmp)
     }
